@@ -527,30 +527,34 @@ def _env():
                     raise MachineryError("C11: scenario forks twice")
                 how = act.get("how", "deepcopy")
                 cp, detached = None, False
-                try:
-                    cp = copy.deepcopy(pr.model) if how == "deepcopy" else pickle.loads(pickle.dumps(pr.model))
-                except RuntimeError as exc:
-                    # after a training-mode forward an MPS quantiser / SuperNet combiner keeps its sampled theta_alpha,
-                    # a NON-LEAF tensor, on the module: neither deepcopy nor pickle accept that.  Not a C11 matter
-                    # (recorded and counted): do what a user has to do - detach those tensors - and copy again
-                    if "graph leaves" not in str(exc) and "non-leaf" not in str(exc).lower():
-                        raise
-                    detached = True
-                    for mod in pr.model.modules():
-                        for store in (vars(mod), mod._buffers):
-                            for k, v in list(store.items()):
-                                if isinstance(v, torch.Tensor) and v.grad_fn is not None:
-                                    store[k] = v.detach()
-                except Exception:
-                    if how != "pickle":     # not every wrapper can be pickled (fx GraphModule of a SuperNet): plain copy
-                        raise
-                if cp is None and how == "pickle":
-                    try:
-                        cp = pickle.loads(pickle.dumps(pr.model))
-                    except Exception:
-                        how = "deepcopy"
-                if cp is None:
-                    cp = copy.deepcopy(pr.model)
+
+                def nonleaf(exc):
+                    return "graph leaves" in str(exc) or "non-leaf" in str(exc).lower()
+
+                for h in ([how] if how == "deepcopy" else ["pickle", "deepcopy"]):
+                    for _ in range(2):
+                        try:
+                            cp = copy.deepcopy(pr.model) if h == "deepcopy" else pickle.loads(pickle.dumps(pr.model))
+                            how = h
+                            break
+                        except Exception as exc:
+                            # after a training-mode forward an MPS quantiser / SuperNet combiner keeps its sampled
+                            # theta_alpha, a NON-LEAF tensor, on the module: neither deepcopy nor pickle accept that.
+                            # Not a C11 matter (recorded and counted): do what a user has to do - detach those
+                            # tensors - and copy again
+                            if isinstance(exc, RuntimeError) and nonleaf(exc) and not detached:
+                                detached = True
+                                for mod in pr.model.modules():
+                                    for store in (vars(mod), mod._buffers):
+                                        for k, v in list(store.items()):
+                                            if isinstance(v, torch.Tensor) and v.grad_fn is not None:
+                                                store[k] = v.detach()
+                                continue
+                            if h == "pickle":   # not every wrapper can be pickled (fx GraphModule of a SuperNet): plain copy
+                                break
+                            raise
+                    if cp is not None:
+                        break
                 prs[2] = Projector(sc["kind"], cp, x, pr.hmap, parent=pr)
                 logged, status, tgt = {"a": "fork", "how": how, "detached": detached}, "-", 2
             else:
